@@ -39,6 +39,7 @@ type World struct {
 
 	Start     int64 // virtual ns at session creation
 	LoopDone  bool
+	LoopExit  func() // called by the loop task when it ends
 	Violation func(oracle, key, detail string)
 
 	// C10: receive-buffer discipline
@@ -159,6 +160,9 @@ func (w *World) StartLoop() {
 			n, _, err := w.S.ReadFrom(buf)
 			if err != nil {
 				w.LoopDone = true
+				if w.LoopExit != nil {
+					w.LoopExit()
+				}
 				return
 			}
 			for i := n; i < len(buf); i++ { // identical spare capacity in both disciplines
